@@ -107,7 +107,9 @@ func c11Bodies() []c11Body {
 	for k := 1; k <= 3; k++ {
 		k := k
 		bodies = append(bodies, c11Body{fmt.Sprintf("break@%d", k),
-			func(t string) string { return fmt.Sprintf("{%% if forloop.index == %d %%}{%% break %%}{%% endif %%}", k) + t },
+			func(t string) string {
+				return fmt.Sprintf("{%% if forloop.index == %d %%}{%% break %%}{%% endif %%}", k) + t
+			},
 			func(items []string) string {
 				p := plain(items)
 				if k-1 < len(p) {
